@@ -113,7 +113,7 @@ def qp(ctx, a, q=None, n=None, **kwargs):
                 k += 1
                 if k > maxterms:
                     raise ctx.NoConvergence
-        return ctx.sum_accurately(terms)
+        return +ctx.sum_accurately(terms)
     # return ctx.nprod(lambda k: 1-a*q**k, [0,n-1])
     def factors():
         k = 0
